@@ -278,6 +278,106 @@ Section ReadPaths.
   Qed.
 End ReadPaths.
 
+(* ---------- undecodable chunks (findings C08-F5b / C08-F5d, repaired): whatever the bytes are ---------- *)
+(* the classes a decoder can raise on bytes that are not NPY data: np.load -> EOFError (empty), ValueError (magic,
+   version, header, short body), zipfile.BadZipFile (zip signature, archive not well-formed), tokenize.TokenError
+   (header text the tokenizer rejects: numpy's _filter_header); katdal's read_array over an HTTP response ->
+   ValueError, TokenError, IncompleteRead (-> MaxRetryError).  The NPY store reports all of them as a missing chunk,
+   the S3 store reports the non-truncation ones as BadChunk: always a ChunkStoreError, never a raw exception *)
+Lemma undecodable_classes_are_mapped :
+  forallb (fun e => exn_eqb (standard_errors (error_map SNpy) e) K_ChunkNotFound)
+          [B_EOFError; B_ValueError; Z_BadZipFile; T_TokenError; B_UnicodeDecodeError] = true /\
+  forallb (fun e => exn_eqb (standard_errors (error_map SS3) e) K_BadChunk)
+          [B_ValueError; T_TokenError; B_UnicodeDecodeError] = true /\
+  standard_errors (error_map SS3) U_MaxRetryError = K_S3ServerGlitch /\
+  isinst K_ChunkNotFound K_ChunkStoreError = true /\ isinst K_BadChunk K_ChunkStoreError = true /\
+  isinst K_S3ServerGlitch K_ChunkStoreError = true.
+Proof. vm_compute. auto 10. Qed.
+
+(* before the repairs (map literals of the unrepaired source): BadZipFile and TokenError escaped the NPY map, ValueError
+   and TokenError escaped the S3 map *)
+Definition npy_map_before_f5b : list (exn * exn) :=
+  [(B_OSError, K_ChunkNotFound); (B_ValueError, K_ChunkNotFound); (B_EOFError, K_ChunkNotFound)].
+Definition s3_map_before_f5d : list (exn * exn) :=
+  [(U_MaxRetryError, K_S3ServerGlitch); (R_ReadTimeout, K_S3ServerGlitch); (R_RetryError, K_S3ServerGlitch);
+   (R_RequestException, K_StoreUnavailable)].
+Lemma undecodable_raw_before_fix :
+  standard_errors npy_map_before_f5b Z_BadZipFile = Z_BadZipFile /\
+  standard_errors npy_map_before_f5b T_TokenError = T_TokenError /\
+  standard_errors s3_map_before_f5d B_ValueError = B_ValueError /\
+  standard_errors s3_map_before_f5d T_TokenError = T_TokenError /\
+  isinst Z_BadZipFile K_ChunkStoreError = false /\ isinst T_TokenError K_ChunkStoreError = false /\
+  isinst B_ValueError K_ChunkStoreError = false.
+Proof. vm_compute. auto 10. Qed.
+
+Lemma check_decoded_class : forall s so dk ex, check_decoded s so dk = Some ex -> ex = K_BadChunk.
+Proof.
+  intros s so dk ex H. unfold check_decoded in H.
+  assert (D : decoded_check s = (true, true, K_BadChunk)) by (destruct s; vm_compute; reflexivity).
+  rewrite D in H. destruct ((true && negb so) || (true && negb dk)); congruence.
+Qed.
+
+Section AnyBytes.
+  Variable parse_hdr : bytes -> option hdr.
+
+  (* the framing reader fails only with "ran out of data" (its [short] class) or ValueError *)
+  Lemma read_array_errors : forall short versions bs e,
+    read_array parse_hdr short versions bs = Err e -> e = short \/ e = EValue.
+  Proof.
+    intros short versions bs e H. unfold read_array in H.
+    repeat (match type of H with context [match ?x with _ => _ end] => destruct x end; try discriminate);
+      inversion H; subst; auto.
+  Qed.
+  Lemma np_load_never_incomplete : forall bs, np_load parse_hdr bs = Err EIncomplete -> False.
+  Proof.
+    intros bs H. unfold np_load in H. destruct (firstn 6 bs); [discriminate|].
+    destruct (starts_with zip_prefix (z :: l) || starts_with zip_suffix (z :: l)); [discriminate|].
+    destruct (bytes_eqb (z :: l) magic_prefix); [|discriminate].
+    apply read_array_errors in H. destruct H; discriminate.
+  Qed.
+  Lemma s3_read_array_never_eof : forall bs, s3_read_array parse_hdr bs = Err EEOF -> False.
+  Proof. intros bs H. apply read_array_errors in H. destruct H; discriminate. Qed.
+  Lemma s3_read_array_never_zip : forall bs, s3_read_array parse_hdr bs = Err EZip -> False.
+  Proof. intros bs H. apply read_array_errors in H. destruct H; discriminate. Qed.
+
+  (* NpyFileChunkStore.get_chunk on a file with ANY content (or no file): data, or a ChunkStoreError *)
+  Lemma npy_any_file_is_reported : forall file want e,
+    npy_get_chunk parse_hdr file want = Raise e -> isinst e K_ChunkStoreError = true.
+  Proof.
+    intros file want e H. unfold npy_get_chunk in H.
+    destruct undecodable_classes_are_mapped as [A [_ [_ [C1 [C2 _]]]]].
+    destruct npy_map_on_decode_errors as [_ [_ [E3 _]]].
+    destruct file as [bs|]; [|rewrite E3 in H; inversion H; subst; exact C1].
+    destruct (np_load parse_hdr bs) as [[m b]|ne] eqn:Hl.
+    - destruct (hdr_matches want m) as [so dk]. destruct (check_decoded SNpy so dk) eqn:Hc; [|discriminate].
+      inversion H; subst. apply check_decoded_class in Hc. subst. exact C2.
+    - injection H as <-. rewrite forallb_forall in A.
+      assert (X : exn_eqb (standard_errors (error_map SNpy) (exn_of_npyerr ne)) K_ChunkNotFound = true).
+      { destruct ne; cbn [exn_of_npyerr]; try (apply A; simpl; tauto).
+        (* EIncomplete is never raised by np.load; its class is left alone by the NPY map and is not needed here *)
+        exfalso. revert Hl. apply np_load_never_incomplete. }
+      apply exn_eqb_eq in X. change (get_map c08_errmap_npy) with (error_map SNpy). rewrite X. exact C1.
+  Qed.
+
+  (* S3ChunkStore.get_chunk on an object with ANY content: data, or a ChunkStoreError *)
+  Lemma s3_any_object_is_reported : forall bs want e,
+    s3_get_chunk parse_hdr bs want = Raise e -> isinst e K_ChunkStoreError = true.
+  Proof.
+    intros bs want e H. unfold s3_get_chunk in H.
+    destruct undecodable_classes_are_mapped as [_ [A [G [_ [C2 C3]]]]].
+    destruct (s3_read_array parse_hdr bs) as [[m b]|ne] eqn:Hl.
+    - destruct (hdr_matches want m) as [so dk]. destruct (check_decoded SS3 so dk) eqn:Hc; [|discriminate].
+      inversion H; subst. apply check_decoded_class in Hc. subst. exact C2.
+    - injection H as <-. rewrite forallb_forall in A.
+      destruct ne; cbn [exn_of_npyerr].
+      + exfalso. revert Hl. apply s3_read_array_never_eof.
+      + assert (X : exn_eqb (standard_errors (error_map SS3) B_ValueError) K_BadChunk = true) by (apply A; simpl; tauto).
+        apply exn_eqb_eq in X. change (get_map c08_errmap_s3) with (error_map SS3). rewrite X. exact C2.
+      + change (get_map c08_errmap_s3) with (error_map SS3). rewrite G. exact C3.
+      + exfalso. revert Hl. apply s3_read_array_never_zip.
+  Qed.
+End AnyBytes.
+
 (* ====================================================================================== *)
 (* loading through ChunkStoreVisFlagsWeights                                              *)
 Lemma vfw_getters : vfw_getter AFlags = get_chunk_or_default /\ vfw_getter AOther = get_chunk_or_placeholder.
